@@ -126,6 +126,12 @@ def directed_sender():
     L.append("snd 8 2 5000 1 0 - A1@0")
     L.append("snd 8 2 5000 1 0 gen:16:1 A2@0 A3@0")
     L.append("snd 8 1 5000 3 0 gen:8:1 A1@0 A2@0")
+    # files that are all zero bytes, or end / begin with page-sized runs of zeros (content must never matter)
+    for b, w in [(512, 1), (4096, 1), (4096, 2), (8192, 3)]:
+        n = 4
+        acks = " ".join("A%d@0" % k for k in range(w, n + 2, w)) + " A%d@0" % (n + 1)
+        L.append("snd %d %d 5000 1 0 zero:%d %s" % (b, w, n * b, acks))
+        L.append("snd %d %d 5000 1 0 zero:%d %s" % (b, w, n * b + 100, acks))
     # a peer ERROR ends the transfer whatever its code
     for code in range(8):
         L.append("snd 8 2 5000 1 0 gen:40:9 A2@0 E%d@0 T T T A4@0" % code)
@@ -143,9 +149,10 @@ def directed_sender():
 
 
 def gen_receiver(rng, tier, rep=None):
-    b = rng.choice([1, 2, 8, 8, 9, 16, 512])
+    b = rng.choice([1, 2, 8, 8, 9, 16, 512, 512, 4096, 8192])
     w = rng.choice([1, 1, 2, 2, 3, 4, 5, 8, 64, 65535])
     rp = rep if rep is not None else rng.choice([1, 1, 1, 2, 3])
+    zeros = rng.random() < 0.25      # some scripts carry runs of zero bytes
     clean = rng.choice([0, 1])
     nb = rng.choice([1, 1, 2, 3, w, w + 1, 2 * w, 2 * w + 1, rng.randint(1, 12)])
     nb = min(nb, 40)
@@ -158,6 +165,8 @@ def gen_receiver(rng, tier, rep=None):
         n = (k % 65536)
         ln = b if k < nb else last
         payload = "gen:%d:%d" % (ln, k % 251) if ln > 24 else hx(bytes((k * 17 + i) % 256 for i in range(ln)))
+        if zeros and ln > 0 and rng.random() < 0.6:
+            payload = "zero:%d" % ln
         r = rng.random()
         if r < 0.72:
             evs.append("D%d:%s" % (n, payload))
@@ -201,6 +210,14 @@ def directed_receiver():
     L.append("rcv 2 1025 1 1 full %s D2051:-" % run(1, 2050, 2))
     L.append("rcv 2 4000 1 1 full %s D1501:07" % run(1, 1500, 2))
     L.append("rcv 2 2000 1 1 full %s D5:0101 %s D1301:-" % (run(1, 1200, 2), run(1201, 1300, 2)))
+    # blocks that are all zero bytes (page-sized and larger, too): in the middle of a window, last in a window, last block of the file, the
+    # whole file; with an abort after them under keep-on-error (what was acknowledged must be in the file)
+    for b in (512, 4096, 8192):
+        for w in (1, 2, 3):
+            L.append("rcv %d %d 1 1 full D1:gen:%d:1 D2:zero:%d D3:zero:%d D4:zero:100" % (b, w, b, b, b))
+            L.append("rcv %d %d 1 1 full D1:zero:%d D2:gen:%d:2 D3:zero:%d D4:-" % (b, w, b, b, b))
+            L.append("rcv %d %d 1 1 full D1:zero:%d D2:zero:%d D3:zero:%d D4:zero:%d D5:zero:%d" % (b, w, b, b, b, b, b - 1))
+            L.append("rcv %d %d 1 0 full D1:zero:%d D2:zero:%d D2:zero:%d E" % (b, w, b, b, b))
     return [" ".join(l.split()) for l in L]
 
 
@@ -430,7 +447,8 @@ def receiver_oracle(line, impl, clauses):
                     return ("ACK %d emitted while %d blocks have been received in sequence" % (an, k), "ack-not-in-sequence")
                 if (ln, h) != (len(acc), fnv(acc)):
                     return ("at ACK %d the file does not hold blocks 1..%d" % (an, k), "ack-before-stored")
-        if "repeat" in clauses and acks:
+        # (an ACK 0 re-sent before any block was accepted acknowledges no data block: the property does not fix its multiplicity)
+        if "repeat" in clauses and acks and k >= 1:
             if len(acks) % c.rep != 0 or any(a != acks[0] for a in acks):
                 return ("ACK emitted %d times instead of %d" % (len(acks), c.rep), "repeat-count")
             if len(acks) != c.rep:
@@ -763,6 +781,11 @@ class C16(WorkerProp):
         # N = 254 (repeat amount 255; the 1 ms delay between copies is real time, so only a few tiny transfers)
         L += ["snd 8 2 5000 255 0 gen:12:1 A2@0", "snd 8 1 5000 255 1 gen:3:1 A0@0 A1@0", "snd 8 1 5000 255 1 gen:3:1 A4@0",
               "rcv 8 2 255 1 full D1:0102030405060708 D2:01", "rcv 8 1 255 1 full D1:0102030405060708 D1:0102030405060708 D2:-"]
+        # across the block-number wrap in duplicate mode: the acknowledgement of block 65536 carries the number 0 and is an acknowledgement of a
+        # data block like any other (1-byte blocks, windows of 4096 and 1024: the ACK lands exactly on 65536)
+        for w, rp in [(4096, 2), (1024, 3)]:
+            toks = " ".join("D%d:%02x" % (k % 65536, (k * 7) & 255) for k in range(1, 65537))
+            L.append("rcv 1 %d %d 1 full %s D1:%02x D2:-" % (w, rp, toks, 0x11))
         # through the server: --duplicate-packets N must reach the worker of every kind of request (with and without options,
         # every window size, both port modes, downloads and uploads)
         from .p_server import rq
@@ -878,8 +901,8 @@ class C15(WorkerProp):
             "non-trivial = distinct case with at least one receive attempt consumed")
 
     def generate(self, tier, rng):
-        from .p_loop import wrap_loop_lines
-        return wrap_cases(tier, rng) + wrap_loop_lines(tier, rng)
+        from .p_loop import wrap_loop_lines, wrap_cli_lines
+        return wrap_cases(tier, rng) + wrap_loop_lines(tier, rng) + wrap_cli_lines()
 
     def compare(self, line, model, impl):
         return model == impl
@@ -888,6 +911,9 @@ class C15(WorkerProp):
         if line.startswith("loop "):
             from .p_loop import LoopProp
             return LoopProp.oracle(self, line, impl)
+        if line.startswith("cli "):
+            from .p_loop import C14
+            return C14.cli_oracle(self, line, impl)
         if line.startswith("rcv ") and line.split(" ")[5] == "len":
             return receiver_len_oracle(line, impl)
         return WorkerProp.oracle(self, line, impl)
@@ -895,16 +921,20 @@ class C15(WorkerProp):
     budget = 5
 
     def nontrivial(self, line, impl):
+        if line.startswith("cli "):
+            return impl.startswith("req=")
         return impl.startswith("s=") if line.startswith("loop ") else WorkerProp.nontrivial(self, line, impl)
 
     def classify(self, line, impl, res):
         if line.startswith("loop "):
             res.count("closed-loop-at-the-wrap")
+        elif line.startswith("cli "):
+            res.count("client-upload-beyond-65535-blocks")
         else:
             WorkerProp.classify(self, line, impl, res)
 
     def shrink(self, line):
-        return [] if line.startswith("loop ") else WorkerProp.shrink(self, line)
+        return [] if line.startswith(("loop ", "cli ")) else WorkerProp.shrink(self, line)
 
 
 def receiver_len_oracle(line, impl):
